@@ -8,7 +8,7 @@ from .. import sigs
 
 MANIFEST = dict(
     technique="Lean 4 proof over Q (label algebra, slice composition by induction) with the alignment table, allowed set, odd rule and _stokes_ids regenerated from core.py by the translator on every run + differential correspondence on constructed/sliced radio signals of all five classes",
-    level_text="label formula, spacing, band bounds, frequency-slice and nested-slice label invariance, rejection of empty/stepped ranges, combined time+frequency slices and Stokes component access proved for every band, alignment, channel count and slice list; the alignment table theorem is about the translator's output, so a changed literal breaks the build; real objects compared with the model and with the exact rational formula",
+    level_text="the label, band-edge and slice-centre expressions translated symbolically from the source on every run are the model's functions (C02_source_formulas); label formula, spacing, band bounds, frequency-slice and nested-slice label invariance, rejection of empty/stepped ranges, combined time+frequency slices and Stokes component access proved for every band, alignment, channel count and slice list; the alignment table theorem is about the translator's output, so a changed literal breaks the build; real objects compared with the model and with the exact rational formula",
     level_note="Trusted: Lean kernel (+3 std axioms), translator pbverif/extract.py (literal tables), hand model PbModel/Freq.lean (tied by correspondence), float evaluation of labels by astropy Quantity (validated within 16 ulp of |cf|+n*bw per slice depth)",
 )
 
@@ -23,7 +23,7 @@ class Prop(PropBase):
     theorems = ["Pb.C02." + t for t in (
         "C02_align_table", "C02_label_formula", "C02_spacing", "C02_in_band", "C02_freq_slice",
         "C02_freq_slice_rejects", "C02_nested", "C02_time_freq", "C02_time_only",
-        "C02_baseband_rescale_witness", "C02_component_keeps_labels")]
+        "C02_baseband_rescale_witness", "C02_component_keeps_labels", "C02_source_formulas")]
     trusted_base = [
         "PbModel/Freq.lean hand model of RadioSignal label/slice logic; Gen/Align.lean, Gen/Classes.lean "
         "produced by pbverif/extract.py from core.py on every run",
